@@ -2596,7 +2596,8 @@ def distributed_shampoo(
     errors = metrics.inverse_pth_root_errors
     errors = errors.reshape((-1, 1, 1))
     predicate = jnp.logical_or(
-        jnp.isnan(errors), errors >= inverse_failure_threshold)
+        jnp.logical_not(jnp.isfinite(errors)),
+        errors >= inverse_failure_threshold)
     # Select rather than blend arithmetically: a rejected root may contain
     # NaN/Inf, and 0 * NaN would poison the preconditioner that is kept.
     new_conditional_preconditioners = jnp.where(
@@ -2965,8 +2966,11 @@ def distributed_shampoo(
     )
 
     def _skip(error):
+      # Reject every non-finite error figure: a batched max-reduction over a
+      # NaN residual can come back as -inf, which is not >= any threshold.
       condition = jnp.logical_or(
-          jnp.isnan(error), error >= inverse_failure_threshold)
+          jnp.logical_not(jnp.isfinite(error)),
+          error >= inverse_failure_threshold)
       return condition.astype(error.dtype)
 
     def _select_preconditioner(error, new_p, old_p):
@@ -3216,8 +3220,11 @@ def distributed_shampoo(
     )
 
     def _skip(error):
+      # Reject every non-finite error figure: a batched max-reduction over a
+      # NaN residual can come back as -inf, which is not >= any threshold.
       condition = jnp.logical_or(
-          jnp.isnan(error), error >= inverse_failure_threshold)
+          jnp.logical_not(jnp.isfinite(error)),
+          error >= inverse_failure_threshold)
       return condition.astype(error.dtype)
 
     def _select_preconditioner(error, new_p, old_p):
@@ -3410,8 +3417,11 @@ def distributed_shampoo(
     )
 
     def _skip(error):
+      # Reject every non-finite error figure: a batched max-reduction over a
+      # NaN residual can come back as -inf, which is not >= any threshold.
       condition = jnp.logical_or(
-          jnp.isnan(error), error >= inverse_failure_threshold)
+          jnp.logical_not(jnp.isfinite(error)),
+          error >= inverse_failure_threshold)
       return condition.astype(error.dtype)
 
     def _select_preconditioner(error, new_p, old_p):
